@@ -19,7 +19,7 @@ import ast
 from typing import Optional
 
 from ..model import dotted
-from ..terms import PI, FlowNormalizer, Poly
+from ..terms import PI, FlowNormalizer, Poly, is_array_module
 
 
 class VersionedNormalizer(FlowNormalizer):
@@ -60,8 +60,8 @@ class VersionedNormalizer(FlowNormalizer):
     def norm(self, n: ast.AST) -> Poly:
         if isinstance(n, ast.Attribute):
             d = dotted(n)
-            if d in ("np.pi", "numpy.pi", "math.pi", "xp.pi"):
-                return Poly.atom(PI)
+            if n.attr == "pi":
+                return Poly.atom(PI)  # <any array module alias>.pi
             if d is not None and not d.startswith("self."):
                 root, _, rest = d.partition(".")
                 if self.df.reaching(self._at[-1], root):
@@ -98,7 +98,8 @@ class CanonNormalizer(VersionedNormalizer):
         if d is None:
             return self.opaque(func)
         parts = d.split(".")
-        if len(parts) > 1 and parts[0] in _ARRAY_MODULES:
+        if len(parts) > 1 and (parts[0] in _ARRAY_MODULES or is_array_module(parts[0])
+                               or self._is_module_local(parts[0])):
             return parts[-1]
         return d
 
